@@ -1,6 +1,6 @@
 """C18 The IMUL_RCP reciprocal is exact for every divisor."""
 import astq
-from rules import decode, jit, sshash
+from rules import decode, genreset, jit, sshash
 
 LEVEL = 'other'
 TECHNIQUE = 'control-dependence check of the no-op guard in every engine (decoder path enumeration) + definition check of the power-of-two predicate; IR effect check of the reciprocal routine'
@@ -60,3 +60,6 @@ def run(ctx, R):
     rule_rcp_pure(ctx, R)
     jit.rule_rcp(ctx, R, 'rvv')
     jit.rule_lw_sib(ctx, R, 'rvv', F)
+    genreset.rule_gen_reset(ctx, R, 'x86')
+    genreset.rule_gen_reset(ctx, R, 'a64')
+    genreset.rule_gen_reset(ctx, R, 'rv64')
